@@ -143,7 +143,7 @@ def rgrid(rng, n, uniform):
 def workload(ctx, lentil):
     rng = ctx.rng
     S = lentil.radiometry.Spectrum
-    n = 140 if ctx.tier == 'quick' else 1000
+    n = ctx.count(140, 1000)
     # ---- integrate ----------------------------------------------------------------------------------
     for i in range(n):
         m = int(rng.integers(3, 41))
@@ -273,7 +273,7 @@ def workload(ctx, lentil):
         else:
             ctx.oracle_evals['bin:exact-linear'] += 0
     # ---- histories ----------------------------------------------------------------------------------------
-    nh = 60 if ctx.tier == 'quick' else 500
+    nh = ctx.count(60, 500)
     for i in range(nh):
         m = int(rng.integers(3, 30))
         w = rgrid(rng, m, bool(rng.random() < 0.5))
